@@ -464,6 +464,11 @@ impl Sim {
         g.watched.clear();
     }
 
+    /// How often the named seam has been passed so far in this run.
+    pub fn site_hits(&self, site: &str) -> u64 {
+        self.inner.lock().unwrap().site_hits.iter().find(|(s, _)| **s == site).map(|(_, n)| *n).unwrap_or(0)
+    }
+
     pub fn take_watched(&self) -> Vec<(&'static str, u64)> {
         std::mem::take(&mut self.inner.lock().unwrap().watched)
     }
